@@ -86,6 +86,16 @@ _UDP_RESTART_SHAPES = {
 }
 
 
+# AST digests of BaseStandaloneNetworkServerImpl.shutdown
+_BASE = SRC + "servers/_base.py"
+_SHUTDOWN_SHAPES = {
+    # as found: the threading.Event is waited for after the bootstrap lock is released, whether or not a portal was seen
+    "3841530871b929d5": False,
+    # meta/fixes/C18_shutdown_lost_wakeup.diff: one event per run, captured under the bootstrap lock
+    "fc1d7f129cbd5606": True,
+}
+
+
 def params():
     """coq/Gen/ParamsC18.v: whether the datagram server guards the restart of a client task at tear-down.
     Fail closed: only the two known shapes of the two functions are accepted."""
@@ -94,12 +104,19 @@ def params():
     if key not in _UDP_RESTART_SHAPES:
         raise TranslateError("datagram.py AsyncDatagramServer.__client_coroutine / __on_client_coroutine_task_done have an "
                              f"unknown shape {key}: the tear-down behaviour of queued datagrams must be re-modelled")
+    key2 = anchor_digest(_BASE, "BaseStandaloneNetworkServerImpl.shutdown")
+    if key2 not in _SHUTDOWN_SHAPES:
+        raise TranslateError(f"_base.py BaseStandaloneNetworkServerImpl.shutdown has an unknown shape {key2}: the wait on the "
+                             "threading event must be re-modelled")
     return ("(* datagram.py: is the restart of a client task skipped when that task was cancelled (server tear-down)? *)\n"
-            f"Definition udp_restart_guarded : bool := {'true' if _UDP_RESTART_SHAPES[key] else 'false'}.\n")
+            f"Definition udp_restart_guarded : bool := {'true' if _UDP_RESTART_SHAPES[key] else 'false'}.\n"
+            "(* _base.py standalone shutdown(): does it wait for the event of the run it saw under the bootstrap lock? *)\n"
+            f"Definition standalone_shutdown_guarded : bool := {'true' if _SHUTDOWN_SHAPES[key2] else 'false'}.\n")
 
 
 L_SERVE, L_SHUTDOWN, L_CLOSE, L_CONNECT, L_DISCONNECT, L_OBSERVE, L_REL_FACTORY, L_REL_INIT, L_REL_CLIENT, L_UDPQ = range(10)
-CALLS = (L_SERVE, L_SHUTDOWN, L_CLOSE)
+L_PRE_SHUTDOWN, L_RESUME = 10, 11
+CALLS = (L_SERVE, L_SHUTDOWN, L_CLOSE, L_PRE_SHUTDOWN)
 
 
 def _port_bound(kind, addr):
@@ -440,6 +457,25 @@ def _run_standalone(inp):
         if not lg.handlers:
             lg.addHandler(logging.NullHandler())
         lg.propagate = False
+    # pre-emption point of shutdown(): every threading.Event the wrapper creates gets a gate in front of wait(), active
+    # for the thread of label 10 only (works whether the event is created once or once per run)
+    resume = threading.Event()
+    from easynetwork.servers import _base as _base_mod
+    real_threading = _base_mod._threading
+    if L_PRE_SHUTDOWN in labels:
+        class GatedEvent(threading.Event):
+            def wait(self, timeout=None):
+                if threading.current_thread().name.startswith("c18-pshutdown"):
+                    resume.wait(WATCHDOG * 4)
+                return super().wait(timeout)
+
+        class _Shim:
+            Event = GatedEvent
+
+            def __getattr__(self, name):
+                return getattr(real_threading, name)
+
+        _base_mod._threading = _Shim()
     if kind == 2:
         from easynetwork.servers.standalone_tcp import StandaloneTCPNetworkServer
         srv = StandaloneTCPNetworkServer("127.0.0.1", 0, StreamProtocol(StringLineSerializer()), SH(), logger=logger)
@@ -494,6 +530,10 @@ def _run_standalone(inp):
                         clients.append(s)
             elif lab == L_REL_FACTORY:
                 window_gate.set()
+            elif lab == L_PRE_SHUTDOWN:
+                calls.append(_Call(srv.shutdown, f"c18-pshutdown-{n}"))
+            elif lab == L_RESUME:
+                resume.set()
             if not _quiesce(_loop_threads(before)):
                 stuck = True
             if in_window.is_set():
@@ -510,6 +550,8 @@ def _run_standalone(inp):
             obs.append([[c.status() if not stuck else 8 for c in calls], serving, listening, _port_bound(kind, addr)])
     finally:
         never.set()
+        resume.set()
+        _base_mod._threading = real_threading
         window_gate.set()
         if gated:
             setattr(srv, attr, orig_factory)
@@ -600,6 +642,11 @@ def cases(tier, rng, escalate):
                 for pre in ([], [L_CLOSE], [L_SHUTDOWN]):
                     seq = pre + [L_SERVE] + ([inside] if inside is not None else []) + [L_REL_FACTORY] + after
                     yield _mk(kind, (1, 0, 0), seq, ["startup-window"])
+    # shutdown() pre-empted between its locked section and its event wait
+    for kind in (2, 3):
+        for seq in ([10, 11], [10, 0, 11], [10, 0, 11, 1], [0, 10, 11], [0, 10, 0, 11], [10, 2, 11], [10, 0, 2, 11],
+                    [10, 0, 11, 2], [1, 10, 0, 11, 1, 0], [10, 0, 1, 11]):
+            yield _mk(kind, (0, 0, 0), seq, ["preempted-shutdown"])
     for _ in range(200 if thorough else 25):
         kind = rng.choice((2, 2, 3))
         alpha = [L_SERVE, L_SERVE, L_SHUTDOWN, L_CLOSE] + ([L_CONNECT, L_DISCONNECT] if kind == 2 else [])
@@ -633,7 +680,7 @@ def oracle(inp):
         kinds = call_kinds[:len(st)]
         for k, s in zip(kinds, st):
             if s in (5, 9):
-                what = ("serve_forever", "shutdown", "server_close")[k]
+                what = {L_SERVE: "serve_forever", L_SHUTDOWN: "shutdown", L_CLOSE: "server_close", L_PRE_SHUTDOWN: "shutdown"}[k]
                 return (f"{what} ended with an undocumented exception (status {s}) "
                         f"[kind={kind} labels={labels[:step + 1]}]")
             if s == 6:
@@ -646,11 +693,11 @@ def oracle(inp):
             was_running = any(k == L_SERVE and s == 0 for k, s in zip(call_kinds, prev))
             if was_running and st[-1] != 2:
                 return f"second concurrent serve_forever not refused with ServerAlreadyRunning (status {st[-1]}) [kind={kind} labels={labels[:step + 1]}]"
-            if closed_ok_at is not None and st[-1] not in (3,):
+            if closed_ok_at is not None and not was_running and st[-1] not in (3,):
                 return f"serve_forever on a closed server not refused with ServerClosedError (status {st[-1]}) [kind={kind} labels={labels[:step + 1]}]"
         # shutdown returned => nothing is serving (unless a newer serve_forever was started afterwards)
         for i, (k, s) in enumerate(zip(kinds, st)):
-            if k == L_SHUTDOWN and s == 1 and (i >= len(prev) or prev[i] == 0):
+            if k in (L_SHUTDOWN, L_PRE_SHUTDOWN) and s == 1 and (i >= len(prev) or prev[i] == 0):
                 newer = any(k2 == L_SERVE and s2 == 0 for k2, s2 in zip(kinds[i + 1:], st[i + 1:]))
                 if serving and not newer:
                     return f"shutdown returned while the server is still serving [kind={kind} labels={labels[:step + 1]}]"
@@ -658,6 +705,12 @@ def oracle(inp):
                 if older_running:
                     return (f"shutdown returned while the serve_forever call it stopped has not returned "
                             f"[kind={kind} labels={labels[:step + 1]}]")
+        # a shutdown call (not held back by the harness) neither returned nor stopped the server
+        resumed = L_RESUME in labels[:step + 1]
+        for i, (k, s) in enumerate(zip(kinds, st)):
+            if (k == L_SHUTDOWN or (k == L_PRE_SHUTDOWN and resumed)) and s == 0 and serving == 1:
+                return (f"shutdown neither returned nor stopped the server: it waits while the server keeps serving "
+                        f"[kind={kind} labels={labels[:step + 1]}]")
         if closed_ok_at is None and any(k == L_CLOSE and s == 1 for k, s in zip(kinds, st)):
             closed_ok_at = step
         if closed_ok_at is not None and (listening or bound):
@@ -673,6 +726,8 @@ def oracle(inp):
 
 def signature(inp, failure):
     head = failure.split(" [")[0]
+    if inp[0] in (2, 3) and L_PRE_SHUTDOWN in inp[2] and head.startswith("shutdown neither returned nor stopped the server"):
+        return "standalone-shutdown-lost-wakeup-serve_forever-starts-before-event-wait"
     if inp[0] in (1, 3) and L_UDPQ in inp[2] and head.startswith("serve_forever ended with an undocumented exception (status 5)"):
         return "udp-serve_forever-raises-taskgroup-shutting-down-when-datagram-queued-at-teardown"
     return head
